@@ -91,7 +91,7 @@ def classify(meta, res, unit_file):
             r['compile_errors'].append((msg + ' ' + '; '.join('%d: %s' % (a, text_lines[a - 1].strip()[:120]) for (a, b, l, p) in lines[:2]))[:600])
     return r
 
-def unit_result(unit, tier='quick', seed=0, probe=False):
+def unit_result(unit, tier='quick', seed=0, probe=False, known_strict=()):
     """build + verify one unit (cached on the generated text)"""
     path, meta = extract.build_unit(unit, REPO, VERIF, BUILD)
     text = open(path).read()
@@ -108,7 +108,9 @@ def unit_result(unit, tier='quick', seed=0, probe=False):
     # that is not a compile error.
     def bad(c): return c['failed_clauses'] or c['failed_lemmas'] or c['body_fail'] or c['rlimit'] or c['infra']
     unstable = []
-    if bad(cl) and not cl['compile_errors']:
+    only_known = (not cl['failed_lemmas'] and not cl['body_fail'] and not cl['rlimit'] and not cl['infra']
+                  and cl['failed_clauses'] and all(k in known_strict for k in cl['failed_clauses']))
+    if bad(cl) and not cl['compile_errors'] and not only_known:
         first = cl
         for (rl, sd) in ((160, None), (160, 7 + seed), (160, 1013 + seed)):
             res2 = run_verus(path, rlimit=rl, seed=sd)
